@@ -15,7 +15,7 @@ and decides
   (v)   the conversion did not fail after `transform_ast` returned (unparse / import / source map), in particular not with
         "Inconsistent ASTs detected"; the source map points into the loaded file and into the original function.
 """
-import ast, inspect, os, sys, textwrap, traceback, warnings
+import ast, inspect, os, signal, sys, textwrap, traceback, warnings
 
 import common
 import pyast
@@ -414,10 +414,22 @@ def run_case(mod, prog_key, source, cfg, want_api, want_lines):
     return rec
 
 
+CASE_TIMEOUT_S = 120
+
+
+class CaseTimeout(BaseException):
+    pass
+
+
+def _on_alarm(signum, frame):
+    raise CaseTimeout()
+
+
 def worker(job):
     """job: dict(items=[(prog_key, source, [cfg...], want_api, want_lines)], repo=...)"""
     import tempfile, shutil
     warnings.simplefilter('ignore')
+    signal.signal(signal.SIGALRM, _on_alarm)
     if common.REPO not in sys.path:
         sys.path.insert(0, common.REPO)
     out = []
@@ -437,7 +449,15 @@ def worker(job):
                     continue
                 for cfg in cfgs:
                     try:
-                        out.append(run_case(mod, prog_key, source, tuple(cfg), want_api, want_lines))
+                        signal.alarm(CASE_TIMEOUT_S)
+                        try:
+                            out.append(run_case(mod, prog_key, source, tuple(cfg), want_api, want_lines))
+                        finally:
+                            signal.alarm(0)
+                    except CaseTimeout:
+                        out.append({'key': '%s/%s' % (prog_key, cfg_key(cfg)), 'prog': prog_key, 'cfg': cfg_key(cfg), 'fails': [],
+                                    'stats': {'case_timeout': 1}, 'calls': [], 'tree': None, 'stage': 'timeout',
+                                    'error': 'no result within %d s (counted, not judged)' % CASE_TIMEOUT_S})
                     except RecursionError:
                         out.append({'key': '%s/%s' % (prog_key, cfg_key(cfg)), 'prog': prog_key, 'cfg': cfg_key(cfg), 'fails': [],
                                     'stats': {}, 'calls': [], 'tree': None, 'stage': 'harness', 'error': 'RecursionError in harness'})
